@@ -71,8 +71,7 @@ func encodeCSV(ctx context.Context, fp io.Writer, view *View, options option.Exp
 
 	for i := range view.RecordSet {
 		if i&15 == 0 && ctx.Err() != nil {
-			err = ConvertContextError(ctx.Err())
-			break
+			return ConvertContextError(ctx.Err())
 		}
 
 		for j := range view.RecordSet[i] {
